@@ -48,9 +48,11 @@ OraclePrecedence == (phase = "case" /\ "mix" \in DOMAIN cs) =>
      /\ cs.mix.any => Via(cs.mix.assign[nd], cs.mix.any) # "refl"
 
 \* ---- properties of the oracle (checked by TLC on every enumerated case) ----
-\* every error addresses a position: its path is non-empty unless the whole request was refused
+\* every error addresses a position: its path is non-empty unless the whole request was refused or the operation root
+\* itself failed (the position is then the root of the response)
 OracleErrPaths == phase = "case" =>
   LET e == Exp({}) IN \A i \in DOMAIN e.errs : e.errs[i].class \in {"no_operation", "no_root", "rejected"} \/ e.errs[i].path # <<>>
+                                                 \/ (e.errs[i].name = "root" /\ e.data = NullV)
 \* no data without an executed operation, and then no resolver call (C01)
 OracleNoOpNoCall == phase = "case" => LET e == Exp({}) IN (~e.hasData) => e.calls = <<>>
 \* an injected fault removes nothing but what lies at or below its position (C06): the
